@@ -29,7 +29,7 @@ DynArgs == ForeignClasses \ {"nil-own"}        \* a nil *S is not dereferenced h
 Ops == sh # <<>> /\ \E j \in ByVal(Listing(sh)) :
          \/ \E v \in 0..2 : DoPut(j, v, "Put")
          \/ DoGet(j, "Get")
-         \/ \E a \in DynArgs : IF PuttAsCoded(a) = "put" THEN (\E v \in 0..2 : DoPut(j, v, "Putt")) \/ DoGet(j, "Gett")
+         \/ \E a \in DynArgs : IF PuttAsCoded(a) = "put" THEN (\E v \in 0..2 : DoPut(j, v, a)) \/ DoGet(j, a)
                                ELSE Reject(a)
 MNext == Build \/ Ops
 MSpec == MInit /\ [][MNext]_vars
@@ -47,6 +47,8 @@ MemExact ==
          /\ \A c \in DOMAIN last.got : last.got[c] = vals[c]
          /\ mem = last.before
     [] last.op = "reject" -> mem = last.before /\ ForeignWant(last.what) = "panic"
+\* only the reflector's own container type gets through Putt / Gett
+OwnTypeOnly == (last.op \in {"put", "get"} /\ last.how \notin {"Put", "Get"}) => ForeignWant(last.how) = "put"
 \* cells never become corrupt (a partially written cell would read -1)
 NoTornCell == sh # <<>> => \A c \in 1..Len(Cells(sh)) : CellVals(Cells(sh), mem)[c] # -1
 ====
